@@ -34,6 +34,7 @@ _SECT = re.compile(r"^(changed functions|\s*changed variables|\s*changed unreach
 def parse(err):
     """err: the error stream of `abidiff --dump-diff-tree`.  Returns (nodes, unknown category names) or None if no H3 lines are found."""
     nodes, stack = [], []       # stack of (indent, index)
+    canon = {}
     cur = None
     section = "fn"
     unknown = []
@@ -51,14 +52,17 @@ def parse(err):
                 stack.pop()
             parent = stack[-1][1] if stack else 0
             cur = {"parent": parent, "kindname": m.group(2), "kind": (section if parent == 0 else "sub"), "lcat": [], "cat": [], "sup": False, "red": False,
-                   "hasLocal": False, "hasChanges": True, "filtered": False}
+                   "hasLocal": False, "hasChanges": True, "filtered": False, "cls": 0}
             nodes.append(cur)
             stack.append((ind, len(nodes)))
             continue
         s = ln.strip()
         if cur is None:
             continue
-        if s.startswith("category:"):
+        if s.startswith("@-canonical:"):
+            ptr = s.split(":", 1)[1].strip()
+            cur["cls"] = canon.setdefault(ptr, len(canon) + 1) if ptr not in ("0", "(nil)", "") else 0
+        elif s.startswith("category:"):
             cl, names, unk = classes(s[len("category:"):])
             cur["cat"] = cl
             cur["sup"] = bool(names & {"SUPPRESSED_CATEGORY", "PRIVATE_TYPE_CATEGORY"})
